@@ -386,7 +386,9 @@ class TestCaseExecutor(AbstractTestCaseExecutor):
             thread.join(
                 timeout=min(
                     self._maximum_test_execution_timeout,
-                    self._test_execution_time_per_statement * test_case.size(),
+                    # An empty test case still needs time to set up and tear down: with a
+                    # budget of zero, whether it "times out" is a race with the thread.
+                    self._test_execution_time_per_statement * max(1, test_case.size()),
                 )
             )
             if thread.is_alive():
